@@ -5,7 +5,7 @@
 (*                                                                             *)
 (* trace.ndjson: line 1 = {"ev":"config","quota":q,"w":ticks,"qsize":n,...}, then *)
 (*   {"ev":"reset","now":t}                    fresh queue, clock at t           *)
-(*   {"ev":"begin","id":s,"prio":p,"ttl":tl,"ok":b}   Enqueue invoked (b = what it *)
+(*   {"ev":"begin","id":s,"prio":p,"ttl":tl,"ok":b,"sub":n}   Enqueue invoked (b = what it *)
 (*                                             returned in the end)              *)
 (*   {"ev":"end","id":s,"ok":b}                Enqueue returned                  *)
 (*   {"ev":"adv","d":1}                        the clock moved                   *)
@@ -19,12 +19,12 @@ EXTENDS TraceLib, Integers, FiniteSets
 
 Cfg == TraceLog[1]
 
-VARIABLES now, rq, rel, last, l, newr, want, ret
+VARIABLES now, rq, rel, turn, last, l, newr, want, ret
 
 P == INSTANCE DpqP WITH Quota <- Cfg.quota, W <- Cfg.w, QSize <- Cfg.qsize,
         PReq <- {}, PPrio <- <<>>, PTtl <- <<>>, PMaxNow <- 0
 
-tvars == <<now, rq, rel, last, l, newr, want, ret>>
+tvars == <<now, rq, rel, turn, last, l, newr, want, ret>>
 
 Ev == TraceLog[l + 1]
 Consume(name) == l < TraceLen /\ Ev.ev = name /\ l' = l + 1
@@ -36,25 +36,25 @@ TInit == P!Init /\ l = 1 /\ newr = {} /\ want = <<>> /\ ret = {}
 
 TReset ==
     /\ Consume("reset") /\ Blocked /\ P!Waiting = {}
-    /\ now' = Ev.now /\ rq' = <<>> /\ rel' = <<>> /\ last' = [ev |-> "reset"]
+    /\ now' = Ev.now /\ rq' = <<>> /\ rel' = <<>> /\ turn' = {} /\ last' = [ev |-> "reset"]
     /\ newr' = {} /\ want' = <<>> /\ ret' = {}
 
 TAdv == Consume("adv") /\ Blocked /\ P!Advance(Ev.d) /\ UNCHANGED <<newr, want, ret>>
 
-TQuiet == Consume("quiet") /\ Blocked /\ UNCHANGED <<now, rq, rel, last, newr, want, ret>>
+TQuiet == Consume("quiet") /\ Blocked /\ UNCHANGED <<now, rq, rel, turn, last, newr, want, ret>>
 
-TPop == Consume("pop") /\ UNCHANGED <<now, rq, rel, last, newr, want, ret>>
+TPop == Consume("pop") /\ UNCHANGED <<now, rq, rel, turn, last, newr, want, ret>>
 
 TBegin ==
     /\ Consume("begin")
     /\ newr' = newr \cup {Ev}
     /\ want' = (Ev.id :> Ev.ok) @@ want
-    /\ UNCHANGED <<now, rq, rel, last, ret>>
+    /\ UNCHANGED <<now, rq, rel, turn, last, ret>>
 
 IArrive == \E p \in newr :
-    /\ \/ p.ok /\ P!Admit(p.id, p.prio, p.ttl)
-       \/ ~p.ok /\ P!RejectFull(p.id, p.prio, p.ttl)
-       \/ P!Enqueue(p.id, p.prio, p.ttl)
+    /\ \/ p.ok /\ P!Admit(p.id, p.prio, p.ttl, Get(p, "sub", 0))
+       \/ ~p.ok /\ P!RejectFull(p.id, p.prio, p.ttl, Get(p, "sub", 0))
+       \/ P!Enqueue(p.id, p.prio, p.ttl, Get(p, "sub", 0))
     /\ newr' = newr \ {p}
     /\ UNCHANGED <<l, want, ret>>
 
@@ -66,7 +66,7 @@ IDecide == \E i \in P!Waiting :
 TEnd ==
     /\ Consume("end")
     /\ Ev.id \in DOMAIN rq /\ rq[Ev.id].st = (IF Ev.ok THEN "released" ELSE "rejected")
-    /\ IF rq[Ev.id].inq THEN P!Leave(Ev.id) ELSE UNCHANGED <<now, rq, rel, last>>
+    /\ IF rq[Ev.id].inq THEN P!Leave(Ev.id) ELSE UNCHANGED <<now, rq, rel, turn, last>>
     /\ ret' = ret \cup {Ev.id}
     /\ UNCHANGED <<newr, want>>
 
